@@ -197,12 +197,53 @@ def replay_auth(lab, mname, model, replies=CHECK_REPLIES):
             'replay': {'scenario': 'auth_session', 'which': 'auth', 'auth': lab, 'mname': mname, 'state_args': sa, 'msg_args': ma, 'violated': bad}}
 
 
+def replay_sessions():
+    """GetSessions on a real NodeServer state: two known, named sessions, every subset of them recorded as authenticated"""
+    bad, obs = [], {}
+    for auth in ((), (1,), (2,), (1, 2)):
+        out, _l, rc, err = native.run('node_sessions', authenticated=list(auth), unnamed=[], timeout=30)
+        if rc != 0:
+            raise RuntimeError('native node_sessions failed: ' + err[-300:])
+        listed = tuple(int(x) for x in out.get('listed', '').split(',') if x)
+        obs[str(auth)] = listed
+        if listed != auth:
+            bad.append('authenticated %s but listed %s' % (list(auth), list(listed)))
+    return {'replayed': bool(bad), 'detail': 'native NodeServer GetSessions: %s ; violated %s' % (obs, bad), 'replay': {'scenario': 'node_sessions', 'which': 'sessions', 'params': {}, 'violated': bad}}
+
+
+def replay_dispatch(lab, mname, model):
+    """the same frame through the actor's handle(): the node server must hear ConnectionAuthenticated exactly when this step authenticated the session"""
+    role = 'server' if lab.startswith('AsServer') else 'client'
+    sv = lab.split('(')[1].rstrip(')')
+    sa = state_args(role, sv, model)
+    ma = msg_args(mname, model)
+    out = run_session(lab, sa, 'auth_handle', ma)
+    n = out.get('server_log', '').split(',').count('ConnectionAuthenticated')
+    post_ok = out.get('auth', '').endswith('(Ok)')
+    bad = auth_claims(lab, sv, role, sa, ma, out)
+    if n > 1:
+        bad.append('authenticated_announced_at_most_once')
+    if n and (sv == 'Ok' or not post_ok):
+        bad.append('announced_only_after_the_digest_matched: %d announcement(s), state before %s, after %s' % (n, lab, out.get('auth')))
+    return {'replayed': bool(bad), 'detail': 'native NodeSession::handle on %s %s with %s -> %s, server heard %s ; violated %s' % (lab, sa, ma, out.get('auth'), out.get('server_log'), bad),
+            'replay': {'scenario': 'auth_session', 'which': 'dispatch', 'auth': lab, 'mname': mname, 'state_args': sa, 'msg_args': ma, 'violated': bad}}
+
+
 def replay_file(d):
     rp = d['replay']
     if rp['scenario'] == 'auth_fsm':
         out = run_fsm(rp['machine'], rp['state'], rp['state_args'], rp['msg_args'])
         bad = fsm_claims(rp['machine'], rp['state'], rp['state_args'], rp['msg_args'], out)
         print('native:', out)
+    elif rp['which'] == 'sessions':
+        r = replay_sessions()
+        print(r['detail'])
+        bad = r['replay']['violated']
+    elif rp['which'] == 'dispatch':
+        out = run_session(rp['auth'], rp['state_args'], 'auth_handle', rp['msg_args'])
+        print('native:', out)
+        n = out.get('server_log', '').split(',').count('ConnectionAuthenticated')
+        bad = ['announced_only_after_the_digest_matched'] if n and (rp['auth'].endswith('(Ok)') or not out.get('auth', '').endswith('(Ok)')) else []
     elif rp['which'] == 'auth':
         role = 'server' if rp['auth'].startswith('AsServer') else 'client'
         sv = rp['auth'].split('(')[1].rstrip(')')
